@@ -46,6 +46,11 @@ package container
 //@ func (mm *MutexMap) Keys
 //@   requires mm != nil && locksFree() && (mm.values != nil ==> mlen(mm.values) <= 1048576)
 //@   loop 0 invariant keys != nil && fresh(keys)
+//@   loop 0 invariant forall(i, int, 0 <= i && i < len(keys) ==> mhas(mm.values)[mkey(keys[i])])
+//@   loop 0 assert itemTag(len(keys) - 1)
+//@   loop 0 invariant forall(q, int, visited(0)[q] ==> exists(i, int, trigger(itemTag(i)), itemTag(i) && 0 <= i && i < len(keys) && mkey(keys[i]) == q))
+//@   ensures[C19,C18] forall(i, int, 0 <= i && i < len(r) ==> mhas(mm.values)[mkey(r[i])])
+//@   ensures[C19,C18] forall(q, int, mhas(mm.values)[q] ==> exists(i, int, trigger(itemTag(i)), itemTag(i) && 0 <= i && i < len(r) && mkey(r[i]) == q))
 //@   modifies new([]interface{})
 
 //@ func (mm *MutexMap) Values
